@@ -22,7 +22,7 @@ def _folded(e):
 
 
 def rule_pair(repo, res):
-    orig = repo.method("PVLParser", "parse_end_aggregation")
+    orig = repo.full("PVLParser", "parse_end_aggregation")
     # canonical form: named temporaries (found_fold = end_agg.casefold()) are read through; the token variables
     # themselves (bound by next(tokens)) are kept
     keep = {t.id for n in ast.walk(orig) if isinstance(n, ast.Assign) and isinstance(n.value, ast.Call) and norm(n.value.func) == "next"
